@@ -3,7 +3,7 @@ import builtins
 import json
 import os
 
-from core import Result
+from core import Result, guard, stable
 
 RULE = ("configurations (strings, ints, lists, dicts, bytes, nested, xor/aes secrets) x five formats x a fault injected at each step "
         "serialisation goes through (a field whose to_basic raises, a 31-byte key file, a failing encrypt, an unknown format name, a "
@@ -102,6 +102,100 @@ def snapshot(path):
         return None
     st = os.stat(path)
     return (open(path, "rb").read(), st.st_ino, st.st_mtime_ns)
+
+
+def history_stream(ctx, res):
+    """enumerated save histories on one configuration object: (a) a save that fails while the key file is being opened (truncated key
+    file), the key file repaired, a successful save, the key file replaced by another valid key, another successful save — each file
+    a successful save wrote loads back with the key file as it is then; (b) format options that name something the configuration
+    itself contains (YAML root key = a top-level section or field, XML root tag = a key): the saved file loads back with the same options"""
+    import cincoconfig as cc
+    from cincoconfig import asdict
+    tmp = ctx.tmpdir()
+    n = [0]
+
+    def make(method):
+        s = cc.Schema()
+        s.mode = cc.StringField(default="production")
+        s.server.host = cc.StringField(default="localhost")
+        s.server.token = cc.SecureField(method=method)
+        s.server.server = cc.IntField(default=1)
+        s.secret = cc.SecureField(method=method)
+        return s
+
+    def loads_back(s, cfg, dest, fmt, kp, opts, case, tag):
+        fresh = s(key_filename=kp)
+        try:
+            if opts:
+                with open(dest, "rb") as fp:            # (Config.load takes no format options; loads does)
+                    fresh.loads(fp.read(), fmt, **opts)
+            else:
+                fresh.load(dest, fmt)
+            same = asdict(fresh) == asdict(cfg)
+            err = None
+        except Exception as e:  # noqa
+            same, err = False, "%s: %s" % (type(e).__name__, str(e)[:100])
+        if not same:
+            res.violate("C19:reload-fails:" + tag if err else "C19:reload-differs:" + tag,
+                        "a file written by a successful save does not load back into an equal configuration", dict(case, error=err))
+        return same
+
+    # (a)
+    for method in ("xor", "aes", "best"):
+        for fmt in ("json", "yaml", "pickle"):
+            for first_failure in ("truncated-key-file", "over-long-key-file", "none"):
+                n[0] += 1
+                s = make(method)
+                kp = os.path.join(tmp, "hk-%d" % n[0])
+                dest = os.path.join(tmp, "hd-%d" % n[0])
+                cfg = s(key_filename=kp)
+                cfg.secret = "history-secret"
+                cfg.server.token = "history-token"
+                case = {"stream": "save-history", "fmt": fmt, "method": method, "first_failure": first_failure}
+                res.case(stable(case), kind="save-history:" + first_failure)
+                steps = []
+                if first_failure != "none":
+                    with open(kp, "wb") as fp:
+                        fp.write(b"12345" if first_failure == "truncated-key-file" else os.urandom(40))
+                    try:
+                        cfg.save(dest, fmt)
+                        steps.append("first-save-accepted")
+                    except Exception:  # noqa
+                        steps.append("first-save-raised")
+                        if os.path.exists(dest):
+                            res.violate("C19:failed-save-left-a-file", "a save that raised left a destination file behind", case)
+                for round_ in ("repaired", "rotated", "rotated-again"):
+                    with open(kp, "wb") as fp:
+                        fp.write(os.urandom(32))
+                    try:
+                        cfg.save(dest, fmt)
+                    except Exception as e:  # noqa
+                        steps.append(round_ + "-raised")
+                        res.hist["save-history:save-raised"] += 1
+                        break
+                    steps.append(round_)
+                    if not loads_back(s, cfg, dest, fmt, kp, {}, dict(case, steps=list(steps)), "save-history"):
+                        break
+    # (b)
+    for fmt, optname, values in (("yaml", "root_key", ["server", "mode", "secret", "CONFIG", None, ""]), ("xml", "root_tag", ["server", "mode", "config", "host"])):
+        for v in values:
+            n[0] += 1
+            s = make("xor")
+            kp = os.path.join(tmp, "ok-%d" % n[0])
+            dest = os.path.join(tmp, "od-%d" % n[0])
+            cfg = s(key_filename=kp)
+            cfg.secret = "opt-secret"
+            cfg.mode = "debug"
+            cfg.server.host = "example.org"
+            opts = {optname: v}
+            case = {"stream": "save-options", "fmt": fmt, "option": optname, "value": v}
+            res.case(stable(case), kind="save-options:" + fmt)
+            try:
+                cfg.save(dest, fmt, **opts)
+            except Exception:  # noqa
+                res.hist["save-options:save-raised"] += 1
+                continue
+            loads_back(s, cfg, dest, fmt, kp, opts, case, "format-option-names-a-key")
 
 
 def run(ctx):
@@ -305,6 +399,7 @@ def run(ctx):
                 pend.append((case, observed, True))
     os.environ.pop("CINCO_T_C19_MODE", None)
     os.environ.pop("CINCO_T_C19_SITE_PORT", None)
+    guard(res, "C19", history_stream, ctx, res)
     replies = ctx.model(reqs)
     if replies is not None:
         for (case, want, raised), r in zip(pend, replies):
